@@ -54,4 +54,56 @@ theorem parseCSeq_encode {s : Bytes} {c : CSeq} (h : parseCSeq s = some c) : c.e
       simp [CSeq.encode, hs]
   · exact absurd h (by simp)
 
+/-! ### a CSeq method is one word: it holds no blank -/
+
+theorem spaceTokLen_zero_ne_blank (b : UInt8) (rest : Bytes) (h : spaceTokLen (b :: rest) = 0) : b ≠ 32 := by
+  intro hb
+  subst hb
+  simp [spaceTokLen, isAsciiSpace] at h
+
+theorem fieldsAux_no_blank (fuel : Nat) (s cur : Bytes) (hc : (32 : UInt8) ∉ cur) :
+    ∀ f ∈ fieldsAux fuel s cur, (32 : UInt8) ∉ f := by
+  induction fuel generalizing s cur with
+  | zero =>
+    intro f hf
+    simp only [fieldsAux] at hf
+    split at hf
+    · simp at hf
+    · simp only [List.mem_singleton] at hf; subst hf; simpa using hc
+  | succ n ih =>
+    intro f hf
+    cases s with
+    | nil =>
+      simp only [fieldsAux] at hf
+      split at hf
+      · simp at hf
+      · simp only [List.mem_singleton] at hf; subst hf; simpa using hc
+    | cons b rest =>
+      simp only [fieldsAux] at hf
+      split at hf
+      · rename_i hk
+        exact ih rest (b :: cur) (by
+          simp only [List.mem_cons, not_or]
+          exact ⟨fun e => spaceTokLen_zero_ne_blank b rest hk e.symm, hc⟩) f hf
+      · split at hf
+        · exact ih _ [] (by simp) f hf
+        · simp only [List.mem_cons] at hf
+          rcases hf with rfl | hf
+          · simpa using hc
+          · exact ih _ [] (by simp) f hf
+
+theorem fields_no_blank (s : Bytes) : ∀ f ∈ fields s, (32 : UInt8) ∉ f :=
+  fieldsAux_no_blank _ s [] (by simp)
+
+theorem parseCSeq_method_no_blank {s : Bytes} {c : CSeq} (h : parseCSeq s = some c) : (32 : UInt8) ∉ c.method := by
+  unfold parseCSeq at h
+  split at h
+  · rename_i n m hf
+    cases ha : atoi n with
+    | none => simp [ha] at h
+    | some i =>
+      simp only [ha, Option.map_some, Option.some.injEq] at h
+      subst h
+      exact fields_no_blank s m (by rw [hf]; simp)
+  · exact absurd h (by simp)
 end Lemmas
